@@ -288,3 +288,58 @@ def op_adjoint_fails(case):
 def reversible_ops(for_truncation=True):
     import ops
     return [n for n in sorted(ops.OPS) if not n.startswith('ibin') and (not for_truncation or 'no-trunc' not in ops.OPS[n]['tags'])]
+
+
+def svd_rankdef_sweeps_fail(case):
+    """svd of a rank-deficient matrix (M <= N, a vanishing singular value) recorded once: several reverse sweeps with different
+    seeds after ONE forward evaluation each give the adjoint a fresh graph gives, and the forward values (s in particular)
+    are what they were before the sweeps -- also for a direct call of UTPM.pb_svd (arguments unchanged)"""
+    A = np.array(case['A'])
+    seeds = [np.array(sd) for sd in case['seeds']]
+
+    def record():
+        cg = algopy.CGraph()
+        fa = algopy.Function(UTPM(A.copy()))
+        U_, s_, V_ = algopy.svd(fa)
+        cg.trace_off()
+        cg.independentFunctionList = [fa]
+        cg.dependentFunctionList = [s_]
+        return cg, fa, s_
+    try:
+        with np.errstate(all='ignore'):
+            cg, fa, fs = record()
+            s_before = np.array(fs.x.data)
+            for k, sd in enumerate(seeds):
+                cg.pullback([UTPM(sd.copy())])
+                got = np.array(fa.xbar.data)
+                cg2, fa2, fs2 = record()
+                cg2.pullback([UTPM(sd.copy())])
+                want = np.array(fa2.xbar.data)
+                if not np.array_equal(np.array(fs.x.data), s_before):
+                    return 'svd-rankdef-forward-value: the singular values held by the graph changed during reverse sweep %d (%s -> %s)' % (
+                        k + 1, s_before.ravel().tolist()[:4], np.array(fs.x.data).ravel().tolist()[:4])
+                if not (np.all(np.isfinite(got)) == np.all(np.isfinite(want))) or not close(got, want, 1e-9):
+                    return 'svd-rankdef-sweep: reverse sweep %d after one forward evaluation differs from the same sweep on a fresh graph' % (k + 1)
+            # direct call of the pullback: no argument is modified
+            a = UTPM(A.copy())
+            U_, s_, V_ = UTPM.svd(a)
+            args = [UTPM(np.zeros_like(U_.data)), UTPM(seeds[0].copy()), UTPM(np.zeros_like(V_.data)), a, U_, s_, V_]
+            before = [np.array(z.data) for z in args]
+            UTPM.pb_svd(*args)
+            for nm, z, b in zip(('Ubar', 'sbar', 'Vbar', 'A', 'U', 's', 'V'), args, before):
+                if not np.array_equal(z.data, b, equal_nan=True):
+                    return 'svd-rankdef-pb-mutates: UTPM.pb_svd modified its argument %s' % nm
+    except Exception as ex:
+        return 'svd-rankdef-exception: %s' % (type(ex).__name__ + ':' + str(ex)[:80])
+    return None
+
+
+def svd_rankdef_case(rng):
+    D, P = rng.choice([(1, 1), (2, 1), (2, 2)])
+    m, n = rng.choice([(2, 3), (2, 2), (2, 4)])
+    A = rand_coeffs(rng, (D, P, m, n), -1, 1)
+    for p in range(P):
+        u = rand_coeffs(rng, (m, 1), -1, 1) + 1.5
+        v = rand_coeffs(rng, (1, n), -1, 1) + 1.5
+        A[0, p] = u @ v                                    # rank one: one singular value vanishes
+    return {'op': 'svd-rankdef', 'D': D, 'P': P, 'A': A, 'seeds': [rand_coeffs(rng, (D, P, m), -1, 1) + 0.125 for _ in range(3)]}
